@@ -26,6 +26,14 @@ From Dials Require Import Base.Outcome Base.Runes Reflect.Ty.
 Import ListNotations.
 Open Scope N_scope.
 
+(* ast.IsExported beyond ASCII: Reflect/Ty.v's `exported` knows A..Z only; field
+   names may also start with one of these non-ASCII upper-case letters
+   (Ä Ö Ü É Đ Ω Ж - the ones the harness generates) *)
+Definition upper_x : list rune := [196; 214; 220; 201; 272; 937; 1046].
+Definition is_upper_x (c : rune) : bool := existsb (N.eqb c) upper_x.
+Definition xexported (name : str) : bool :=
+  match name with c :: _ => is_upper c || is_upper_x c | [] => false end.
+
 Record sfield := SF { sf_name : str; sf_tags : list (str * str); sf_anon : bool; sf_ty : ty }.
 Definition tval := (ty * val)%type.
 Definition fvt := (sfield * tval)%type.   (* transform.FieldValueTuple *)
